@@ -13,6 +13,30 @@ static void show_dec(char *buf, size_t cap, size_t n) {
     puthex(stdout, buf + n, 1);
 }
 
+/* ---- `hugecodec <nbytes>` (thorough tier only, no model line): encode <nbytes> patterned bytes with
+ * each codec, decode the text in place, verify the length and every byte; texts of 2^31 characters and
+ * more (an `int` length anywhere in the codecs gives up there). Prints `ok` or the first mismatch. */
+static unsigned char hc_byte(size_t i) { return (unsigned char) ((i * 40503u + (i >> 11)) & 0xff); }
+static void do_hugecodec(size_t n) {
+    unsigned char *src = malloc(n ? n : 1);
+    if (!src) { printf("no-memory"); return; }
+    for (size_t i = 0; i < n; i++) src[i] = hc_byte(i);
+    const char *names[3] = {"hex", "base64", "url"};
+    for (int c = 0; c < 3; c++) {
+        char *e = c == 0 ? qhex_encode(src, n) : c == 1 ? qbase64_encode(src, n) : qurl_encode(src, n);
+        if (!e) { printf("mismatch: %s encode of %zu bytes returned NULL (%s)", names[c], n, errname(errno)); free(src); return; }
+        size_t tl = strlen(e);
+        size_t want = c == 0 ? 2 * n : c == 1 ? 4 * ((n + 2) / 3) : 0;
+        if (c < 2 && tl != want) { printf("mismatch: %s text of %zu bytes has %zu characters, expected %zu", names[c], n, tl, want); free(e); free(src); return; }
+        size_t dl = c == 0 ? qhex_decode(e) : c == 1 ? qbase64_decode(e) : qurl_decode(e);
+        if (dl != n) { printf("mismatch: %s decode of a %zu-character text returned length %zu, expected %zu", names[c], tl, dl, n); free(e); free(src); return; }
+        for (size_t i = 0; i < n; i++) if ((unsigned char) e[i] != src[i]) { printf("mismatch: %s round trip differs at byte %zu of %zu", names[c], i, n); free(e); free(src); return; }
+        free(e);
+    }
+    free(src);
+    printf("ok");
+}
+
 int main(void) {
     char *line = NULL; size_t cap = 0; ssize_t len;
     harness_init();
@@ -20,6 +44,7 @@ int main(void) {
         char *w[MAXW]; int nw = split_words(line, w);
         if (nw == 0) continue;
         bytes_t a = {0, 0};
+        if (nw == 2 && !strcmp(w[0], "hugecodec")) { do_hugecodec(strtoull(w[1], NULL, 10)); printf("\n"); fflush(stdout); continue; }
         if (nw >= 2 && !unhex(w[1], &a)) { printf("bad-hex %s\n", w[1]); continue; }
         const char *op = w[0];
         errno = ENOMEM;   /* poison: no result may depend on the errno left by earlier, unrelated calls */
